@@ -207,10 +207,10 @@ def length_against_independent_quadrature(c, kinds, scipy):
             tm = 0.5 * (t0 + t1)
             c.ensures('additive', abs(seg.length(t0, tm) + seg.length(tm, t1) - L) <= 1e-6 * max(L, 1e-9) + 1e-9 * sc)
             # the segment was new and has only been asked for parts so far: the whole length now
-            whole = seg.length()
-            chw = sum(abs(bez.bern(P, (k + 1) / float(N)) - bez.bern(P, k / float(N))) for k in range(N))
-            c.ensures('whole-length-after-partial-queries', abs(whole - chw) <= 5e-3 * max(chw, 1e-9) + 1e-9 * sc)
-            if scipy:
+            if scipy:      # (only with the quadrature: the chord recursion is slow)
+                whole = seg.length()
+                chw = sum(abs(bez.bern(P, (k + 1) / float(N)) - bez.bern(P, k / float(N))) for k in range(N))
+                c.ensures('whole-length-after-partial-queries', abs(whole - chw) <= 5e-3 * max(chw, 1e-9) + 1e-9 * sc)
                 c.ensures('partial-length-after-the-whole', abs(seg.length(t0, t1) - L) <= 1e-9 * max(L, 1e-9) + 1e-12 * sc)
     finally:
         sp._quad_available = old
